@@ -61,7 +61,8 @@ class World:
         self.k1 = m['Constant']('kap' + sfx)
         self.nn = m['NormalVector']('nn')
         self.D1 = [m['dx'], m['dy'], m['dz']][:self.dim]
-        self.x = list(self.domain.coordinates)
+        from harness.inst import PHYS
+        self.x = list(PHYS[:self.dim])      # the symbols dx, dy, dz differentiate with respect to
 
 
 def coef(W, rng):
@@ -117,7 +118,15 @@ def nonlinear_edit(W, rng, args, others):
         return 'sqrt', m['sqrt'](la ** 2 + 1) * prod_other
     if k < 0.74:
         return 'denominator', prod_other * W.f / (la + 2)
-    if k < 0.86 and len(args) >= 2:
+    if k < 0.80:
+        # homogeneous of degree one, not additive: only the additivity test can reject it
+        d = rng.choice(W.D1)
+        if vec:
+            p, q = rng.choice([(a[0], a[W.dim - 1]), (d(a[0]), a[0]), (a[W.dim - 1], d(a[0]))])
+        else:
+            p, q = rng.choice([(a, d(a)), (d(a), a), (d(a), d(d(a)))])
+        return 'ratio', p ** 2 / q * prod_other
+    if k < 0.88 and len(args) >= 2:
         b = [x for x in args if x is not a][0]
         return 'cross-product-of-components', lin_of(W, rng, a) * lin_of(W, rng, b) * prod_other
     return 'cube', la ** 3 * prod_other
@@ -199,15 +208,15 @@ def request(ser, W, case, m):
     return 'C08 linear %d %s %s' % (W.dim, dumps([A('args')] + [ser.ser(t) for t in case['tests']]), dumps(ints))
 
 
-# --------------------------------------------------------------------------- correspondence
+# --------------------------------------------------------------------------- the case streams
 
-def correspondence(ctx):
-    m = mods()
-    c = Corr()
-    rng = ctx.rng
-    ser = Ser()
-    n = 1500 if ctx.thorough else 260
-    cases = []
+def stream(stage, tier, seed, n, m):
+    """the deterministic sequence of candidate forms of one stage: (index, world, case | None, error | None).
+    It depends on (stage, tier, seed) only, so that a replay file (which records them and the index)
+    identifies its input exactly."""
+    import random
+    rng = random.Random('C08/%s/%s/%s' % (stage, tier, seed))
+    World.count = {'corr': 0, 'oracle': 50000}[stage]
     W = None
     for i in range(n):
         if i % 10 == 0:
@@ -215,7 +224,26 @@ def correspondence(ctx):
         try:
             case = make_case(W, rng)
         except Exception as e:
-            c.count('unbuildable:' + type(e).__name__)
+            yield i, W, None, e
+            continue
+        yield i, W, case, None
+
+
+def impl_answer(verdict):
+    return {'ok': 'ok true', 'UnconsistentLinearExpressionError': 'ok false'}.get(verdict, 'err ' + verdict)
+
+
+# --------------------------------------------------------------------------- correspondence
+
+def correspondence(ctx):
+    m = mods()
+    c = Corr()
+    ser = Ser()
+    n = 4000 if ctx.thorough else 600
+    cases = []
+    for i, W, case, err in stream('corr', ctx.tier, ctx.seed, n, m):
+        if case is None:
+            c.count('unbuildable:' + type(err).__name__)
             continue
         if case['expr'] == 0:
             continue
@@ -225,16 +253,17 @@ def correspondence(ctx):
         except Exception as e:
             c.count('unserialisable:' + type(e).__name__)
             continue
-        cases.append((line, verdict, case['label'], str(case['expr'])[:300], case['bilinear']))
+        cases.append((line, verdict, case['label'], str(case['expr'])[:300], case['bilinear'], i))
     outs = ctx.driver.run([x[0] for x in cases])
-    for (line, verdict, label, shown, bil), out in zip(cases, outs):
+    for (line, verdict, label, shown, bil, i), out in zip(cases, outs):
         c.evaluations += 1
-        impl = {'ok': 'ok true', 'UnconsistentLinearExpressionError': 'ok false'}.get(verdict, 'err ' + verdict)
+        impl = impl_answer(verdict)
         c.count('verdict:' + verdict)
         c.count('built:' + label.split(':')[-1] if label != 'linear' else 'built:linear')
         c.count('form:' + ('bilinear' if bil else 'linear'))
         if out != impl:
-            c.disagreements.append({'input': {'line': line[:2500], 'expr': shown, 'label': label, 'op': 'verdict'},
+            c.disagreements.append({'input': {'line': line[:2500], 'expr': shown, 'label': label, 'op': 'verdict',
+                                              'stage': 'corr', 'index': i},
                                     'impl': verdict, 'model': out, 'note': label})
         c.nontrivial.add(line)
         if len(c.samples) < 6 and len(shown) < 200:
@@ -252,72 +281,112 @@ def make_inst(rng, W, m):
             if isinstance(e, m['NormalVector']):
                 return m['Matrix']([m['Rational'](i + 2, 7) for i in range(self.dim)])
             return super().inst(e)
-    return Inst2(rng, W.dim, W.x, trig=True)
+    return Inst2(rng, W.dim, W.x)
 
 
 def value(inst, ints):
     return {d: inst.inst(e) for d, e in ints}
 
 
+def rich_poly(rng, xs):
+    """a polynomial none of whose low-order derivatives vanishes identically"""
+    import sympy
+    e = sympy.S.Zero
+    for _ in range(4):
+        t = sympy.S(rng.choice([-3, -2, -1, 1, 2, 3, 5]))
+        for x in xs:
+            t *= x ** rng.choice([1, 2, 3, 4])
+        e += t
+    return e + sum(x ** 4 for x in xs)
+
+
+def close(a, b, xs, rng):
+    """a == b (scalars), decided at two random rational points"""
+    import sympy
+    d = sympy.sympify(a) - sympy.sympify(b)
+    if d == 0:
+        return True
+    for _ in range(2):
+        pt = {x: sympy.Rational(rng.randint(2, 30), rng.randint(7, 13)) for x in xs}
+        v = d.subs(pt)
+        if v.is_Rational:
+            if v != 0:
+                return False
+            continue
+        try:
+            n = sympy.N(v, 40)
+            s = sympy.N(sympy.sympify(a).subs(pt), 40)
+        except Exception:
+            return None
+        if not n.is_number or n.is_finite is not True:
+            return None
+        if abs(n) > sympy.Float('1e-25') * (1 + abs(s)):
+            return False
+    return True
+
+
 def truth(W, rng, case, args, m):
     """True / False / None: is the integrand (every integral) jointly linear in `args`, numerically"""
     import copy
     import sympy
-    from harness.inst import same_value
     ints = int_list(case['expr'], m)
-    for draw in range(2):
-        base = make_inst(rng, W, m)
-        try:
-            value(base, ints)       # fixes every symbol that occurs
-        except NotImplementedError:
-            return None
+    base = make_inst(rng, W, m)
+    try:
+        value(base, ints)       # fixes every symbol that occurs
+    except NotImplementedError:
+        return None
+    # every function (fields and the other arguments too) gets a polynomial with non-vanishing derivatives
+    base.sf = {n: rich_poly(rng, W.x) for n in base.sf}
+    base.vf = {n: [rich_poly(rng, W.x) for _ in range(W.dim)] for n in base.vf}
 
-        def with_args(fun):
-            i2 = copy.copy(base)
-            i2.sf, i2.vf = dict(base.sf), dict(base.vf)
-            for a in args:
-                if isinstance(a, m['VectorFunction']):
-                    i2.vf[a.name] = fun(a.name, True)
-                else:
-                    i2.sf[a.name] = fun(a.name, False)
-            return i2
-        L = {a.name: ([base.rand_poly() for _ in range(W.dim)] if isinstance(a, m['VectorFunction']) else base.rand_poly()) for a in args}
-        R = {a.name: ([base.rand_poly() for _ in range(W.dim)] if isinstance(a, m['VectorFunction']) else base.rand_poly()) for a in args}
-        al = sympy.Rational(rng.choice([3, 5, -2]), rng.choice([1, 2]))
-        comb = lambda f: (lambda n, vec: [f(x, y) for x, y in zip(L[n], R[n])] if vec else f(L[n], R[n]))
-        try:
-            vl = value(with_args(lambda n, vec: L[n]), ints)
-            vr = value(with_args(lambda n, vec: R[n]), ints)
-            vs = value(with_args(comb(lambda x, y: x + y)), ints)
-            va = value(with_args(lambda n, vec: [al * x for x in L[n]] if vec else al * L[n]), ints)
-        except Exception:
+    def with_args(fun):
+        i2 = copy.copy(base)
+        i2.sf, i2.vf = dict(base.sf), dict(base.vf)
+        for a in args:
+            if isinstance(a, m['VectorFunction']):
+                i2.vf[a.name] = fun(a.name, True)
+            else:
+                i2.sf[a.name] = fun(a.name, False)
+        return i2
+    mk = lambda a: ([rich_poly(rng, W.x) for _ in range(W.dim)] if isinstance(a, m['VectorFunction']) else rich_poly(rng, W.x))
+    L = {a.name: mk(a) for a in args}
+    R = {a.name: mk(a) for a in args}
+    al = sympy.Rational(rng.choice([3, 5, -2]), rng.choice([1, 2]))
+    comb = lambda f: (lambda n, vec: [f(x, y) for x, y in zip(L[n], R[n])] if vec else f(L[n], R[n]))
+    try:
+        vl = value(with_args(lambda n, vec: L[n]), ints)
+        vr = value(with_args(lambda n, vec: R[n]), ints)
+        vs = value(with_args(comb(lambda x, y: x + y)), ints)
+        va = value(with_args(lambda n, vec: [al * x for x in L[n]] if vec else al * L[n]), ints)
+    except Exception:
+        return None
+    for d in vl:
+        s1 = close(vs[d], vl[d] + vr[d], W.x, rng)
+        s2 = close(va[d], al * vl[d], W.x, rng)
+        if s1 is False or s2 is False:
+            return False
+        if s1 is None or s2 is None:
             return None
-        for d in vl:
-            s1 = same_value(vs[d], vl[d] + vr[d], W.x, rng)
-            s2 = same_value(va[d], al * vl[d], W.x, rng)
-            if s1 is False or s2 is False:
-                return False
-            if s1 is None or s2 is None:
-                return None
     return True
 
 
-FIXED = []
+def judged(W, case, i, m):
+    """the semantic verdict on case number i (its own random points, so that it can be recomputed)"""
+    import random
+    rng = random.Random('C08/truth/%d' % i)
+    t = truth(W, rng, case, case['tests'], m)
+    if t is True and case['bilinear']:
+        t = truth(W, rng, case, case['trials'], m)
+    return t
 
 
 def oracle(ctx, factor, seeds):
     m = mods()
     o = Oracle()
-    rng = ctx.rng
-    n = (700 if ctx.thorough else 130) * factor
-    W = None
-    for i in range(n):
-        if i % 10 == 0:
-            W = World(rng, m)
-        try:
-            case = make_case(W, rng)
-        except Exception as e:
-            o.count('unbuildable:' + type(e).__name__)
+    n = (1800 if ctx.thorough else 200) * factor
+    for i, W, case, err in stream('oracle', ctx.tier, ctx.seed, n, m):
+        if case is None:
+            o.count('unbuildable:' + type(err).__name__)
             continue
         if case['expr'] == 0:
             continue
@@ -327,11 +396,9 @@ def oracle(ctx, factor, seeds):
             o.fail('raises:%s:%s' % (verdict, str(case['expr'])[:250]),
                    'constructing the %s form over %s from %s raises %s (neither success nor the linearity error)' % (
                        'bilinear' if case['bilinear'] else 'linear', case['tests'], str(case['expr'])[:250], verdict),
-                   expr=str(case['expr']), label=case['label'])
+                   expr=str(case['expr']), label=case['label'], stage='oracle', index=i)
             continue
-        t = truth(W, rng, case, case['tests'], m)
-        if t is True and case['bilinear']:
-            t = truth(W, rng, case, case['trials'], m)
+        t = judged(W, case, i, m)
         if t is None:
             o.count('truth-undecided')
             continue
@@ -341,19 +408,62 @@ def oracle(ctx, factor, seeds):
             o.fail('false-reject:' + str(case['expr'])[:300],
                    'the integrand %s is additive and homogeneous in %s%s but the constructor raises the linearity error' % (
                        str(case['expr'])[:300], case['tests'], (' and in %s' % case['trials']) if case['bilinear'] else ''),
-                   expr=str(case['expr']), label=case['label'], bilinear=case['bilinear'])
+                   expr=str(case['expr']), label=case['label'], bilinear=case['bilinear'], stage='oracle', index=i)
         elif (not t) and verdict == 'ok':
             o.fail('false-accept:' + str(case['expr'])[:300],
                    'the integrand %s is not linear in its arguments (%s) but the %s form is accepted' % (
                        str(case['expr'])[:300], case['label'], 'bilinear' if case['bilinear'] else 'linear'),
-                   expr=str(case['expr']), label=case['label'], bilinear=case['bilinear'])
+                   expr=str(case['expr']), label=case['label'], bilinear=case['bilinear'], stage='oracle', index=i)
         if len(o.samples) < 4 and len(str(case['expr'])) < 160:
             o.samples.append({'expr': str(case['expr']), 'built': case['label'], 'truth': bool(t), 'constructor': verdict})
     return o
 
 
 def replay(ctx, path):
+    """regenerates the recorded case (stage, tier, seed, index) and re-evaluates it on the real code"""
     d = json.load(open(path))
     print(json.dumps(d, indent=1)[:3500])
-    print('REPLAY: random integrand; re-run `VERIF_SEED=%s ./check C08 --tier %s` to regenerate it' % (d.get('seed'), d.get('tier')))
+    m = mods()
+    det = d.get('detail') or {}
+    if isinstance(det, str):
+        try:
+            import ast
+            det = ast.literal_eval(det)
+        except Exception:
+            det = {}
+    inp = det.get('input', det) if isinstance(det, dict) else {}
+    stage, index = inp.get('stage'), inp.get('index')
+    if stage is None or index is None:
+        print('REPLAY: the file does not identify a case')
+        return 2
+    index = int(index)
+    found = None
+    for i, W, case, err in stream(stage, d.get('tier'), d.get('seed'), index + 1, m):
+        if i == index:
+            found = (W, case)
+    if found is None or found[1] is None:
+        print('REPLAY: case %s/%d cannot be regenerated' % (stage, index))
+        return 2
+    W, case = found
+    verdict = construct(case, m)
+    print('REPLAY: case %s/%d: %s' % (stage, index, str(case['expr'])[:400]))
+    print('REPLAY: constructor verdict: %s' % verdict)
+    if stage == 'corr':
+        line = request(Ser(), W, case, m)
+        out = ctx.driver.run([line])[0]
+        print('REPLAY: model verdict: %s' % out)
+        if out != impl_answer(verdict):
+            print('REPLAY: still disagreeing')
+            return 1
+        print('REPLAY: the constructor and the model agree now')
+        return 0
+    if verdict not in ('ok', 'UnconsistentLinearExpressionError'):
+        print('REPLAY: still raising %s' % verdict)
+        return 1
+    t = judged(W, case, index, m)
+    print('REPLAY: semantic verdict (additive and homogeneous on polynomial instances): %s' % t)
+    if t is not None and t != (verdict == 'ok'):
+        print('REPLAY: still failing')
+        return 1
+    print('REPLAY: the recorded case no longer fails')
     return 0
